@@ -26,6 +26,8 @@ use std::char;
 use std::convert::TryFrom;
 use std::ffi::{CStr, CString, OsStr, OsString};
 use std::fmt::{self, Debug, Display, Formatter};
+use std::fs;
+use std::io;
 use std::iter::FusedIterator;
 use std::mem;
 use std::ops::Deref;
@@ -565,6 +567,20 @@ pub(crate) fn unlink<P: ?Sized + NixPath>(f: &P) -> nix::Result<()> {
     match unistd::unlink(f) {
         Err(Errno::ENOENT) => Ok(()),
         res => res,
+    }
+}
+
+/// Delete a temporary output at path `f` if it currently exists,
+/// also when a script has made it a directory.
+pub(crate) fn unlink_output<P: AsRef<Path>>(f: P) -> io::Result<()> {
+    let f = f.as_ref();
+    match fs::remove_file(f) {
+        Ok(()) => Ok(()),
+        Err(e) if e.kind() == io::ErrorKind::NotFound => Ok(()),
+        Err(e) => match f.symlink_metadata() {
+            Ok(m) if m.is_dir() => fs::remove_dir_all(f),
+            _ => Err(e),
+        },
     }
 }
 
